@@ -1019,7 +1019,19 @@ def cast_before_write(repo, col, sites):
         calls = [c for c in calls_in(fn.node) if isinstance(c.func, ast.Attribute)
                  and c.func.attr == "write_chunk"]
         if not calls:
-            raise AnalysisError("anchor vanished: write_chunk in %s" % fn.key)
+            # moved into a nested helper?
+            for q, f2 in fn.module.functions.items():
+                if q.startswith(fn.qualname + "."):
+                    calls += [c for c in calls_in(f2.node)
+                              if isinstance(c.func, ast.Attribute)
+                              and c.func.attr == "write_chunk"]
+        if not calls:
+            if "write_chunk" not in norm(fn.node):
+                raise AnalysisError("anchor vanished: write_chunk in %s"
+                                    % fn.key)
+            col.add(rule, fn, "write_chunk", True, "write_chunk is not called "
+                    "directly", undecided=True)
+            continue
         for c in calls:
             a = c.args[0] if c.args else None
             if isinstance(a, ast.Name):
@@ -1027,6 +1039,11 @@ def cast_before_write(repo, col, sites):
                       if d.value is not None]
                 if len(vs) == 1:
                     a = vs[0]
+                elif not vs:
+                    # a parameter of a nested helper: cast happens elsewhere
+                    col.add(rule, fn, norm(c)[:60], True, "written array is a "
+                            "helper's parameter", node=c, undecided=True)
+                    continue
             ok = isinstance(a, ast.Call) and isinstance(a.func, ast.Attribute) \
                 and a.func.attr == "astype" and kwarg(a, "casting") is not None \
                 and kwarg(a, "casting").value == "equiv"
@@ -1151,6 +1168,22 @@ def downscaler_templates(repo, col):
     col.add(rule, mj, "block = chunk[t, zd:zd+Dz, yd:yd+Dy, xd:xd+Dx]", okb,
             "" if okb else "source block of an output voxel is not the "
             "factor-sized block at its origin", undecided=not okb)
+    # a label wins outright only with strictly more than half of the block
+    dm = repo.module("downscaling")
+    for f in dm.functions.values():
+        if f.cls is None or f.cls.name != "MajorityDownscaler":
+            continue
+        for n in walk_local(f.node):
+            if isinstance(n, ast.Compare) and len(n.ops) == 1 and \
+                    isinstance(n.ops[0], (ast.GtE, ast.LtE)):
+                txt = norm(n)
+                if ("2 *" in txt or "* 2" in txt or "/ 2" in txt or
+                        "// 2" in txt) and ("size" in txt or "count" in txt):
+                    col.add(rule + ".strict-majority", f, txt, False,
+                            "`%s` declares a label the winner with exactly "
+                            "half of the block: ties must go to the smallest "
+                            "label, so a shortcut needs strictly more than "
+                            "half" % txt, node=n)
     st = repo.func("downscaling", "StridingDownscaler.downscale")
     t = norm(st.node)
     oks = "chunk[:, ::downscaling_factors[2], ::downscaling_factors[1], " \
